@@ -10,6 +10,23 @@ NOTE = ("trusted: clang 14 front end + CFG builder, cmake's compile database, th
         "The check decides the listed structural clauses only - see DESIGN.md section 5 'Not decided'.")
 
 CLAIMS = {
+    "C06": dict(
+        technique="abstract interpretation (zones / difference-bound matrices) over the fixed_vector template pattern + CFG ordering rules",
+        text="Static, all capacities / operation histories / element types: with the class invariant 0 <= size_ <= capacity_ assumed at "
+             "entry, every method is proven to re-establish it; every storage subscript is proven inside [0, capacity_) (or [0, capacity_] "
+             "when only its address is taken); checked operations test against size_; size_ grows only below capacity_ and only right after "
+             "slot size_ was written; nothing is written before a raise in single-element operations; constructors allocate exactly capacity_ "
+             "slots; no manual memory management. One known finding (moved-from capacity, pinned by a test). Element-type behaviour under "
+             "throwing operations is covered only through the ordering rules.",
+        ref="5/C06"),
+    "C07": dict(
+        technique="type-level witnesses (static_assert / must-compile instantiation) + CFG must-write rules + zone analysis of the shift loops",
+        text="Static: the three operator= return fixed_vector&, write all of size_/capacity_/data_ on every non-self path and return *this; "
+             "copy/move construction transfers every state field; rbegin/rend & co are std::reverse_iterator by type; every member "
+             "(templates included) instantiates for int, std::string and a move-only type; erase shifts data_[k] <- data_[k+1] ascending "
+             "within size_ then decrements; positional emplace appends then moves the element in front of pos; the append family writes "
+             "slot size_ before incrementing. Equality with a reference list over histories is not decided.",
+        ref="5/C07"),
     "C01": dict(
         technique="iteration-path enumeration of the token loop + CFG must-precede rules + boolean-skeleton entailment",
         text="Static, token level, all argument vectors: every feasible iteration path of parse()'s token loop consumes the token "
